@@ -25,6 +25,7 @@ same extensional filter, and the recorded calls are compared with the model's `a
 """
 import datetime
 import io
+import random
 import logging
 import os
 import shutil
@@ -170,10 +171,21 @@ def gen_table(rng, native, dup_names=None):
     return grid, kind
 
 
-def gen_stream(rng, native):
+def long_table(rng, n_rows):
+    """a plain two-column table with many rows (size ladder)"""
+    t = rng.random() < 0.3
+    name = rng.choice(NAMES[:6])
+    vals = [[str(i % 97), rng.choice(["x", "y", "-"])] for i in range(n_rows)]
+    if t:
+        return [["**" + name + "*"], ["all"], ["n", "m"] + [v[0] for v in vals], ["s", "text"] + [v[1] for v in vals]]
+    return [["**" + name], ["all"], ["n", "s"], ["m", "text"]] + vals
+
+
+def gen_stream(rng, native, long_rows=None):
     """-> list of rows (lists). Blocks are separated by a blank row, or by nothing at all."""
     rows = []
     kinds = []
+    long_at = rng.randint(0, 2) if long_rows else None
     dup_names = rng.choice(DUP_NAMES) if rng.random() < 0.15 else None
     r0 = rng.random()
     if r0 < 0.3:
@@ -191,9 +203,12 @@ def gen_stream(rng, native):
         # mixed: entries and rows that contribute nothing; a later duplicate key overwrites in place
         rows += [["title"], ["author:", "x"], ["key:"], ["author:", " y "]][: rng.randint(2, 4)]
         kinds.append("metadata-mixed")
-    for _ in range(rng.choice([1, 2, 3, 3, 4, 5, 6])):
+    for bi in range(rng.choice([1, 2, 3, 3, 4, 5, 6]) + (2 if long_rows else 0)):
         r = rng.random()
-        if r < 0.62:
+        if long_at is not None and bi == long_at:
+            rows += long_table(rng, long_rows)
+            kinds.append("table:long")
+        elif r < 0.62:
             grid, kind = gen_table(rng, native, dup_names)
             rows += grid
             kinds.append("table:" + kind)
@@ -336,10 +351,13 @@ def spelled_name(head):
 
 # ---------------------------------------------------------------------------------------------- one case
 
-def draw_filter(rng, pairs):
+def draw_filter(rng, pairs, nontable_only=False):
     """extensional predicate over the observed pairs"""
     pairs = sorted(set(pairs))
     r = rng.random()
+    if nontable_only or r > 0.96:
+        # only non-table blocks wanted: every table is rejected
+        return {"accept": [[t, n, t != "TABLE"] for t, n in pairs], "default": False}
     if r < 0.06:
         return {"accept": [], "default": True}
     if r < 0.10:
@@ -387,17 +405,40 @@ def junk_rows(rng, block_rows, csv, reshape=False):
     return out
 
 
+LONG_ROWS = [1000, 1023, 1025, 3000, 2049, 4097]
+
+
+def cells_from_json(rows):
+    """protocol cells -> native cells (inverse of common.grid_to_json for the cell types the generators use)"""
+    def cell(c):
+        if isinstance(c, dict):
+            if "i" in c:
+                return int(c["i"])
+            if "f" in c:
+                return float(c["f"])
+            if "d" in c:
+                return datetime.datetime.fromisoformat(c["d"])
+            return str(c.get("o"))
+        return c
+    return [[cell(c) for c in r] for r in rows]
+
+
 def one_case(rng, out, seed, idx, tmp, ops, pend, model_ok):
-    from pdtable import BlockType
+    """draw one case; everything the evaluation needs is in the case (so that a replay file replays exactly)"""
     api = rng.choice(["parse_blocks", "parse_blocks", "read_csv", "read_csv", "read_excel"])
     to = rng.choice(["pdtable", "jsondata", "cellgrid"])
     tracker = rng.choice(["raising", "collecting"])
     fx = rng.choice(FIXERS)
+    # size ladder: a few long inputs per run (sheets of >= 1000 rows for the Excel route, long streams for the others)
+    long_rows = None
+    if idx % 150 == 7:
+        long_rows = LONG_ROWS[(idx // 150) % len(LONG_ROWS)]
+        api = "read_excel" if (idx // 150) % 2 == 0 else rng.choice(["read_csv", "parse_blocks"])
     native = api != "read_csv" and rng.random() < 0.5
     n_sheets = rng.choice([1, 1, 2]) if api == "read_excel" else 1
     sheets, kinds = [], []
-    for _ in range(n_sheets):
-        rows, ks = gen_stream(rng, native)
+    for si in range(n_sheets):
+        rows, ks = gen_stream(rng, native, long_rows if si == 0 else None)
         sheets.append(rows)
         kinds += ks
     sep = None
@@ -410,16 +451,35 @@ def one_case(rng, out, seed, idx, tmp, ops, pend, model_ok):
         sheets = [[[_san(c, False).replace(sep, "_") for c in r] for r in rows] for rows in sheets]
     elif api == "read_excel":
         sheets = [[[_san(c, True) for c in r] for r in rows] for rows in sheets]
+    else:
+        sheets = [[[str(c) if isinstance(c, (datetime.date, datetime.time)) and not isinstance(c, datetime.datetime)
+                    else c for c in r] for r in rows] for rows in sheets]
     src = Source(api, sheets, tmp, sep, tag=f"c{idx}")
-    # half of the parse_blocks cases: all reads of the case (unfiltered, filtered, rewritten) run on the caller's own
-    # row objects, as a caller holding one list of rows would do
-    src.shared = api == "parse_blocks" and rng.random() < 0.5
-    if src.shared:
-        out.count("parse_blocks:same_row_objects_for_every_read")
     case = {"seed": seed, "index": idx, "api": api, "to": to, "tracker": tracker, "fixer": fx, "sep": sep,
-            "sheets": [grid_to_json(s) for s in src.seen]}
+            "sheets": [grid_to_json(s) for s in src.seen],
+            # half of the parse_blocks cases: all reads of the case (unfiltered, filtered, rewritten) run on the
+            # caller's own row objects, as a caller holding one list of rows would do
+            "shared": api == "parse_blocks" and rng.random() < 0.5,
+            "sub": rng.getrandbits(32), "long_rows": long_rows}
     for k in kinds:
         out.count("block:" + k)
+    eval_case(case, out, tmp, ops, pend, model_ok, src)
+
+
+def eval_case(case, out, tmp, ops, pend, model_ok, src=None):
+    """everything after the draw: a function of the case alone (`sub` seeds the predicate / rewrite draws; a replay
+    file's own "filter" / "verdict_type" take precedence)"""
+    from pdtable import BlockType
+    api, to, tracker, fx, sep = case["api"], case["to"], case["tracker"], case.get("fixer"), case.get("sep")
+    idx, sub = case.get("index", 0), case.get("sub", 0)
+    case = dict(case)
+    if src is None:
+        src = Source(api, [cells_from_json(s) for s in case["sheets"]], tmp, sep, tag=f"r{idx}")
+    src.shared = bool(case.get("shared"))
+    if src.shared:
+        out.count("parse_blocks:same_row_objects_for_every_read")
+    if case.get("long_rows"):
+        out.count("long_input:%s:%d" % (api, case["long_rows"]))
     out.count("api:" + api)
     out.count("to:" + to)
     out.count("tracker:" + tracker)
@@ -460,11 +520,12 @@ def one_case(rng, out, seed, idx, tmp, ops, pend, model_ok):
             pairs.append(("TABLE", rn if rn is not None else spelled_name(s[3])))
         else:
             pairs.append((s[0], ""))
-    spec = draw_filter(rng, pairs)
+    frng = random.Random(f"{sub}:filter")
+    spec = case.get("filter") or draw_filter(frng, pairs, nontable_only=bool(case.get("long_rows")) and frng.random() < 0.6)
     p = bc.py_filter(spec)
     rec = []
 
-    vk = rng.choice(VERDICTS)
+    vk = case.get("verdict_type") or random.Random(f"{sub}:verdict").choice(VERDICTS)
     out.count("verdict_type:" + vk)
     case["verdict_type"] = vk
 
@@ -576,6 +637,7 @@ def one_case(rng, out, seed, idx, tmp, ops, pend, model_ok):
     if not cand:
         out.count("content:no_rejected_table")
         return
+    rng = random.Random(f"{sub}:content")
     k = rng.choice(cand)
     si, (ty, start, n, head) = flat[k]
     seen_rows = src.seen[si]
@@ -716,12 +778,18 @@ def _brief(r):
 
 
 def replay(rep):
+    """re-evaluates exactly the input of the replay file (api, form, tracker, fixer, rows as the parser received them,
+    predicate, verdict type, shared-rows flag, sub-seed of the content rewrite) — independent of tier, seed and
+    position in any stream"""
     inp = rep.get("input") or {}
-    if "index" not in inp:
+    if "sheets" not in inp or "api" not in inp:
         return False, "replay file has no input (no-failing-input-found): " + str(rep.get("broken"))[:300]
-    seed = int(rep.get("seed", inp.get("seed", 0)))
-    o = run("thorough", seed, model_ok=False, translator=None, _limit=int(inp["index"]) + 1)
-    hit = [f for f in o.failures if f["input"].get("index") == inp["index"]]
-    if hit:
-        return False, hit[0]["what"]
+    out = Outcome()
+    tmp = tempfile.mkdtemp(prefix="c11r-")
+    try:
+        eval_case(dict(inp), out, tmp, [], [], False)
+    finally:
+        shutil.rmtree(tmp, ignore_errors=True)
+    if out.failures:
+        return False, out.failures[0]["what"]
     return True, "property holds on this input"
